@@ -1,15 +1,18 @@
 #!/bin/sh
-# Build step after a fresh restore (offline): regenerate the unrolled ring product, parse every spec module.
+# Build step after a fresh restore (offline): regenerate the unrolled ring product, parse every spec module (8 at a time).
 cd "$(dirname "$0")" || exit 2
 python3 tools/gen_unrolled.py spec/alg/CycloUnrolled.tla || exit 2
 LIB=$(pwd)/spec/alg:$(pwd)/spec/ir:$(pwd)/spec/sys:$(pwd)/spec/trace:$(pwd)/spec/gen
+export LIB
+LOG=$(mktemp)
+ls spec/*/*.tla | xargs -P 8 -I{} sh -c '
+  f="{}"; d=$(dirname "$f"); out=$(mktemp)
+  ( cd "$d" && java -cp /opt/veriftools/tla/tla2tools.jar:/opt/veriftools/tla/CommunityModules-deps.jar -DTLA-Library="$LIB" tla2sany.SANY "$(basename "$f")" > "$out" 2>&1 )
+  if grep -q -E "Fatal errors|\*\*\* Errors|Could not parse|Semantic errors" "$out"; then echo "SANY FAILED: $f"; tail -5 "$out"; fi
+  rm -f "$out"' > "$LOG" 2>&1
 rc=0
-for f in spec/*/*.tla; do
-  d=$(dirname "$f")
-  ( cd "$d" && java -cp /opt/veriftools/tla/tla2tools.jar:/opt/veriftools/tla/CommunityModules-deps.jar -DTLA-Library="$LIB" tla2sany.SANY "$(basename "$f")" > /tmp/sany.$$ 2>&1 ) 
-  if grep -q -E "Fatal errors|\*\*\* Errors|Could not parse|Semantic errors" /tmp/sany.$$; then echo "SANY FAILED: $f"; tail -5 /tmp/sany.$$; rc=2; fi
-done
-rm -f /tmp/sany.$$
+if [ -s "$LOG" ]; then cat "$LOG"; grep -q "SANY FAILED" "$LOG" && rc=2; fi
+rm -f "$LOG"
 mkdir -p evidence replays .work
 [ $rc -eq 0 ] && echo "setup ok"
 exit $rc
